@@ -382,6 +382,8 @@ class C15(DecProp):
 
     def cases(self, tier, rng):
         out = core.gen_lines("concat", rng.randint(1, 10 ** 6), core.q(tier, 300, 5000))
+        # a picture with a dimension at the top of the 16-bit range, then a small one (pairs: one reader / one reader each)
+        out += core.gen_lines("edgeconcat", rng.randint(1, 10 ** 6), 2 if tier == "quick" else 0)
         # what a picture of more than 64 KiB does to the reader: `commit` after that many bytes, at every bit phase, then more
         # reads (R lines, reader level: the Lean model of the picture layer is quadratic in the picture length, so pictures of
         # that size are exercised at this level only)
